@@ -65,8 +65,9 @@ def small_recipes():
             out.append(("HTMLResponse", dict(content=content, status_code=status)))
     for content in ({"a": [1, 2, "é"]}, [], "s", None, 1.5):
         out.append(("JSONResponse", dict(content=content)))
-    for url in ("/a", "/é?q=1#f", "http://h/ü", "/a\r\nSet-Cookie: x=1", "/\0"):
+    for url in ("/a", "/é?q=1#f", "http://h/ü", "/a\r\nSet-Cookie: x=1", "/\0", "/\u6587\u6863/?q=\u4e2d", "http://h/\U0001f600"):
         out.append(("RedirectResponse", dict(url=url)))
+        out.append(("RedirectResponse", dict(url=("URL", url))))       # the target given as a URL object
     return out
 
 
@@ -100,7 +101,14 @@ def bounded(tier, seed):
                     mod = W if iface == "wsgi" else A
                     inputs = {"kind": "small", "cls": name, "kwargs": repr(kwargs), "cookies": ck, "method": method, "iface": iface}
                     try:
-                        resp = getattr(mod, name)(**kwargs)
+                        kw = dict(kwargs)
+                        if isinstance(kw.get("url"), tuple):
+                            from baize.datastructures import URL
+                            try:
+                                kw["url"] = URL(kw["url"][1])
+                            except ValueError:
+                                continue
+                        resp = getattr(mod, name)(**kw)
                         cookie_variants(resp, ck)
                     except ValueError:
                         continue   # rejected at construction (control characters): allowed by C13
